@@ -50,7 +50,7 @@ def run_one(engine, seed, acc, tier):
     except (core.RunTimeout, core.BudgetExceeded):
         pass
     kind = 'synth' if engine.startswith('synth') else 'shipped'
-    run = c19.solve_cli(case, kind)
+    run = c19.solve_cli(case, kind, keep_old_solution=True)       # over the prelude's solution file
     fs = []
     if run.outcome == 'solved' and run.solution_file:
         from .. import pipeline
@@ -86,7 +86,7 @@ def run_one(engine, seed, acc, tier):
 def _eval_with_prelude(case, engine):
     if case.get('prelude'):
         c19.evaluate(case['prelude'], engine, None, want='C14')
-    return c19.evaluate(case, engine, None, want='C14')
+    return c19.evaluate(case, engine, None, want='C14', keep_old_solution=bool(case.get('prelude')))
 
 
 def replay(rec):
